@@ -205,3 +205,11 @@ extend("C13", "B-PARSER provenance rule", "the name whose extension selects the 
 extend("C14", MULTI, "two files with the same $id or the same base name both keep their root type; a titled root colliding with a definition keeps its root type (defect fixed).")
 extend("C18", ENGINE_A + " on every valid broad-family member (no interpreted panic)", "errors collected into a []error must reach the return on every path; every valid family member is generated without panic.")
 extend("C08", "", "enum items of array definitions; enum values that normalise to one identifier get distinct constants (defect fixed); the sized-int enum defect is fixed.")
+
+extend("C10", "A-MEMO / A-DEDUP / B-QUALIFIED", "the loader memo table is decided semantically (interpreted around a recording inner loader) instead of by SSA shape; "
+       "QualifiedFileName returns the symlink-resolved location joined to the referring file's directory; getDeclByEqualSchema returns the declaration whose schema equals the query.")
+extend("C13", "A-TYPEFORM, A-LEGACY, A-REFNAMES: abstract interpretation of the schema decoders and of extractRefNames on both spellings (stated mini-model of encoding/json.Unmarshal)",
+       "`\"T\"` vs `[\"T\"]`, `true` vs `{}`, each legacy/current keyword pair (alone and mixed, current wins) and both pointer prefixes in six capitalisations decode / resolve to the same model; "
+       "the SSA fold-shape rule remains only as a fallback for a fold outside the decoder.")
+extend("C16", "B-FLAG flag-to-Config wiring table; multi-file naming members", "each option flag's variable is the one its Config field is loaded from; titled roots / --schema-root-type with two files keep each root under its own name.")
+extend("C19", "", "the typed decode goes into a local shadow type; reserved-name members (types named Plain/Value/Raw, properties named additional_properties/plain/raw/value).")
